@@ -582,6 +582,32 @@ class LinearModel(Model):
         #     assert(self.range_dim  == matrix.shape[0]), "The parameter 'forward' dimensions are inconsistent with the parameter 'range_geometry'"
         #     assert(self.domain_dim == matrix.shape[1]), "The parameter 'forward' dimensions are inconsistent with parameter 'domain_geometry'"
 
+    @property
+    def domain_geometry(self):
+        """ The geometry representing the domain. """
+        return self._domain_geometry
+
+    @domain_geometry.setter
+    def domain_geometry(self, value):
+        self._domain_geometry = value
+        self._reset_assembled_matrix()
+
+    @property
+    def range_geometry(self):
+        """ The geometry representing the range. """
+        return self._range_geometry
+
+    @range_geometry.setter
+    def range_geometry(self, value):
+        self._range_geometry = value
+        self._reset_assembled_matrix()
+
+    def _reset_assembled_matrix(self):
+        """ A matrix assembled from forward belongs to the geometries it was assembled with. """
+        self._par_matrix = None
+        if not getattr(self, "_matrix_is_given", True):
+            self._matrix = None
+
     def adjoint(self, y, is_par=True):
         """ Adjoint of the model.
         
@@ -658,7 +684,11 @@ class LinearModel(Model):
         # which already map parameters to parameters through the geometries)
         transpose = LinearModel(self._adjoint_func, self._forward_func,
                                 self.domain_geometry, self.range_geometry)
-        if self._matrix is not None: # Assembled matrix of the forward operator
+        # The assembled matrix of the forward operator, transposed, is the matrix
+        # of the transposed model only if adjoint is the exact transpose of forward
+        if self._matrix is not None and \
+            self._is_identity_geometry(self.domain_geometry) and \
+            self._is_identity_geometry(self.range_geometry):
             transpose._matrix = self._matrix.T
         return transpose
         
